@@ -38,7 +38,9 @@ CHECKS = {
         "matrices of all live designs, every earlier result array, the caller's frames (values, dtypes, index, column "
         "order, attrs), the caller's namespace, formulae.config and the TRANSFORMS registry must be unchanged.  All "
         "histories of length <= 3 over a reduced pool and all build; set-config; evaluate; set-config; evaluate histories "
-        "are enumerated; the state machine draws histories of up to 30 steps.",
+        "are enumerated; the state machine draws histories of up to 30 steps.  Every description and build is also repeated "
+        "in new interpreters with other string-hash seeds (determinism), and caller scenarios (a variable re-bound between "
+        "two builds, a failed evaluation, a caller at module level) are compared with and without the intervening operation.",
         "Exploration.  'Fresh' means a fork-server child with the modules imported; import-time state is shared by construction.",
         "DESIGN.md section 3, C07",
     ),
